@@ -39,10 +39,10 @@ use datafusion::physical_plan::sorts::sort::SortExec;
 use datafusion::physical_plan::sorts::sort_preserving_merge::SortPreservingMergeExec;
 use datafusion::physical_plan::union::UnionExec;
 use datafusion::physical_plan::windows::{create_window_expr, BoundedWindowAggExec, WindowAggExec};
-use datafusion::physical_plan::{displayable, ExecutionPlan, InputOrderMode, Partitioning};
+use datafusion::physical_plan::{displayable, ExecutionPlan, ExecutionPlanProperties, InputOrderMode, Partitioning};
 use datafusion::prelude::*;
 use datafusion_proto::bytes::{physical_plan_from_bytes, physical_plan_from_json, physical_plan_to_bytes, physical_plan_to_json};
-use datafusion_proto::physical_plan::{AsExecutionPlan, DefaultPhysicalExtensionCodec, DefaultPhysicalProtoConverter};
+use datafusion_proto::physical_plan::{AsExecutionPlan, DefaultPhysicalExtensionCodec};
 use datafusion_proto::protobuf as pb;
 use h_util::{arg, json_str, Rng};
 use refsql_gen::*;
@@ -89,20 +89,23 @@ fn rows_of(batches: &[RecordBatch]) -> Vec<String> {
 }
 
 // ------------------------------------------------------------------------------------------------ the oracle
-struct Out { ok: bool, skipped: Option<String>, why: Option<String>, text: String, bytes: usize, rows: i64, back: Option<Arc<dyn ExecutionPlan>>, node: Option<pb::PhysicalPlanNode> }
+struct Out { ok: bool, skipped: Option<String>, why: Option<String>, text: String, bytes: usize, rows: i64, back: Option<Arc<dyn ExecutionPlan>>, node: Option<pb::PhysicalPlanNode>, diff: Option<Vec<(String, String)>> }
 
 async fn check(ctx: &SessionContext, fresh: &SessionContext, plan: &Arc<dyn ExecutionPlan>, exec: bool, ordered: bool) -> Out {
     let text = format!("{}", displayable(plan.as_ref()).indent(true));
-    let mut out = Out { ok: true, skipped: None, why: None, text: text.clone(), bytes: 0, rows: -1, back: None, node: None };
+    let mut out = Out { ok: true, skipped: None, why: None, text: text.clone(), bytes: 0, rows: -1, back: None, node: None, diff: None };
     let codec = DefaultPhysicalExtensionCodec {};
-    let conv = DefaultPhysicalProtoConverter {};
-    out.node = pb::PhysicalPlanNode::try_from_physical_plan(plan.clone(), &codec, &conv).ok();
+    out.node = pb::PhysicalPlanNode::try_from_physical_plan(plan.clone(), &codec).ok();
     let bytes = match physical_plan_to_bytes(plan.clone()) { Ok(b) => b, Err(e) => { out.skipped = Some(format!("encoding failed: {e}")); return out; } };
     out.bytes = bytes.len();
     let fail = |o: &mut Out, w: String| { if o.ok { o.ok = false; o.why = Some(w); } };
     let back = match physical_plan_from_bytes(&bytes, fresh.task_ctx().as_ref()) { Ok(b) => b, Err(e) => { fail(&mut out, format!("decoding failed: {e}")); return out; } };
     let t2 = format!("{}", displayable(back.as_ref()).indent(true));
-    if t2 != text { fail(&mut out, format!("displayable().indent(true) differs after the round trip:\n{t2}")); }
+    if t2 != text {
+        let (la, lb): (Vec<&str>, Vec<&str>) = (text.lines().collect(), t2.lines().collect());
+        if la.len() == lb.len() { out.diff = Some(la.iter().zip(lb.iter()).filter(|(x, y)| x != y).take(12).map(|(x, y)| (x.trim_start().to_string(), y.trim_start().to_string())).collect()); }
+        fail(&mut out, format!("displayable().indent(true) differs after the round trip:\n{t2}"));
+    }
     if back.schema() != plan.schema() { fail(&mut out, format!("schema differs after the round trip: {:?} vs {:?}", back.schema(), plan.schema())); }
     if back.output_partitioning().partition_count() != plan.output_partitioning().partition_count() { fail(&mut out, "output partition count differs".to_string()); }
     match physical_plan_to_json(plan.clone()) {
@@ -137,13 +140,17 @@ fn obs_json(o: &[Obs]) -> String {
     format!("[{}]", o.iter().map(|x| format!("{{\"table\":\"{}\",\"variant\":\"{}\",\"tag\":{},\"back\":{}}}", x.table, x.variant, x.tag,
         x.back.as_ref().map(|b| json_str(b)).unwrap_or("null".into()))).collect::<Vec<_>>().join(","))
 }
-fn down<T: 'static>(p: &Option<Arc<dyn ExecutionPlan>>) -> Option<&T> { p.as_ref().and_then(|x| x.as_any().downcast_ref::<T>()) }
+fn diff_json(d: &Option<Vec<(String, String)>>) -> String {
+    match d { Some(d) => format!("[{}]", d.iter().map(|(x, y)| format!("[{},{}]", json_str(&x[..x.len().min(1500)]), json_str(&y[..y.len().min(1500)]))).collect::<Vec<_>>().join(",")), None => "null".into() }
+}
+fn down<T: ExecutionPlan>(p: &Option<Arc<dyn ExecutionPlan>>) -> Option<&T> { p.as_ref().and_then(|x| x.downcast_ref::<T>()) }
 
 fn observe(plan: &Arc<dyn ExecutionPlan>, out: &Out) -> Vec<Obs> {
     use pb::physical_plan_node::PhysicalPlanType as T;
     let mut v = vec![];
     let Some(node) = &out.node else { return v };
-    match (node.physical_plan_type.as_ref(), plan.as_any()) {
+    let a: &dyn ExecutionPlan = plan.as_ref();
+    match (node.physical_plan_type.as_ref(), a) {
         (Some(T::HashJoin(n)), a) if a.is::<HashJoinExec>() => {
             let o = a.downcast_ref::<HashJoinExec>().unwrap();
             let b = down::<HashJoinExec>(&out.back);
@@ -176,12 +183,12 @@ fn observe(plan: &Arc<dyn ExecutionPlan>, out: &Out) -> Vec<Obs> {
             v.push(Obs { table: "AggregateMode", variant: dbg_kind(o.mode()), tag: n.mode as i64, back: b.map(|x| dbg_kind(x.mode())) });
         }
         (Some(T::Window(n)), a) => {
-            let frames = |p: &dyn std::any::Any| -> Vec<Arc<WindowFrame>> {
+            let frames = |p: &dyn ExecutionPlan| -> Vec<Arc<WindowFrame>> {
                 if let Some(w) = p.downcast_ref::<BoundedWindowAggExec>() { w.window_expr().iter().map(|e| e.get_window_frame().clone()).collect() }
                 else if let Some(w) = p.downcast_ref::<WindowAggExec>() { w.window_expr().iter().map(|e| e.get_window_frame().clone()).collect() } else { vec![] }
             };
             let of = frames(a);
-            let bf = out.back.as_ref().map(|b| frames(b.as_any())).unwrap_or_default();
+            let bf = out.back.as_ref().map(|b| frames(b.as_ref())).unwrap_or_default();
             for (i, f) in of.iter().enumerate() {
                 let Some(pf) = n.window_expr.get(i).and_then(|w| w.window_frame.as_ref()) else { continue };
                 v.push(Obs { table: "PWindowFrameUnits", variant: dbg_kind(&f.units), tag: pf.window_frame_units as i64, back: bf.get(i).map(|x| dbg_kind(&x.units)) });
@@ -200,7 +207,7 @@ fn oint(p: Option<usize>) -> String { p.map(|x| x.to_string()).unwrap_or("null".
 /// the option block of a HashJoinExec: operator, wire node, decoded operator
 fn observe_hj(plan: &Arc<dyn ExecutionPlan>, out: &Out) -> String {
     use pb::physical_plan_node::PhysicalPlanType as T;
-    let (Some(node), Some(o)) = (&out.node, plan.as_any().downcast_ref::<HashJoinExec>()) else { return "null".into() };
+    let (Some(node), Some(o)) = (&out.node, plan.downcast_ref::<HashJoinExec>()) else { return "null".into() };
     let Some(T::HashJoin(n)) = node.physical_plan_type.as_ref() else { return "null".into() };
     let side = |x: &HashJoinExec| format!("{{\"jt\":\"{:?}\",\"pm\":\"{:?}\",\"ne\":\"{:?}\",\"na\":{},\"proj\":{},\"fetch\":{}}}", x.join_type(), x.partition_mode(), x.null_equality(),
         x.null_aware, olist(x.projection.as_deref()), oint(x.fetch()));
@@ -213,11 +220,11 @@ fn observe_sort(plan: &Arc<dyn ExecutionPlan>, out: &Out) -> String {
     use pb::physical_plan_node::PhysicalPlanType as T;
     let Some(node) = &out.node else { return "[]".into() };
     fn find_sort(p: &Arc<dyn ExecutionPlan>) -> Option<Vec<SortOptions>> {
-        if let Some(s) = p.as_any().downcast_ref::<SortExec>() { return Some(s.expr().iter().map(|e| e.options).collect()); }
+        if let Some(s) = p.downcast_ref::<SortExec>() { return Some(s.expr().iter().map(|e| e.options).collect()); }
         p.children().first().and_then(|c| find_sort(c))
     }
     fn find_node(n: &pb::PhysicalPlanNode) -> Option<&pb::SortExecNode> {
-        match n.physical_plan_type.as_ref()? { T::Sort(s) => Some(s), T::SortPreservingMerge(m) => find_node(m.input.as_ref()?), T::CoalescePartitions(m) => find_node(m.input.as_ref()?), _ => None }
+        match n.physical_plan_type.as_ref()? { T::Sort(s) => Some(s), T::SortPreservingMerge(m) => find_node(m.input.as_ref()?), T::Merge(m) => find_node(m.input.as_ref()?), _ => None }
     }
     let (Some(o), Some(w)) = (find_sort(plan), find_node(node)) else { return "[]".into() };
     let b = out.back.as_ref().and_then(find_sort).unwrap_or_default();
@@ -307,6 +314,8 @@ fn op_cases(ctx: &SessionContext) -> Vec<Case> {
             push(format!("SymmetricHashJoinExec {jt:?} {ne:?} {mode:?}"), r, true, false);
         }
     }
+    let r = SymmetricHashJoinExec::try_new(left1(), right(), on(), Some(join_filter(&[JoinSide::Left, JoinSide::Right, JoinSide::None])), &JoinType::Inner, NullEquality::NullEqualsNothing, None, None, StreamJoinPartitionMode::SinglePartition).map(|x| Arc::new(x) as Arc<dyn ExecutionPlan>);
+    push("SymmetricHashJoinExec filter with a side-less column".into(), r, false, false);
     // ---- other joins
     for jt in JOIN_TYPES {
         let r = NestedLoopJoinExec::try_new(left1(), right(), Some(join_filter(&[JoinSide::Left, JoinSide::Right])), &jt, None).map(|x| Arc::new(x) as Arc<dyn ExecutionPlan>);
@@ -321,7 +330,7 @@ fn op_cases(ctx: &SessionContext) -> Vec<Case> {
     push("CrossJoinExec".into(), Ok(Arc::new(CrossJoinExec::new(left1(), right()))), true, false);
     // ---- sorts: options x fetch x preserve_partitioning
     for (desc, nf) in [(false, false), (false, true), (true, false), (true, true)] {
-        for fetch in [None, Some(0usize), Some(3)] {
+        for fetch in [None, Some(1usize), Some(3)] {
             for pp in [false, true] {
                 let s = SortExec::new(sort_exprs(&ls, &[("a", desc, nf), ("b", !desc, nf)]), left()).with_preserve_partitioning(pp).with_fetch(fetch);
                 let plan: Arc<dyn ExecutionPlan> = if pp { Arc::new(SortPreservingMergeExec::new(sort_exprs(&ls, &[("a", desc, nf), ("b", !desc, nf)]), Arc::new(s)).with_fetch(fetch)) } else { Arc::new(CoalescePartitionsExec::new(Arc::new(s))) };
@@ -394,12 +403,12 @@ fn op_cases(ctx: &SessionContext) -> Vec<Case> {
     }
     // ---- limits, filter, projection, repartitioning, union
     for (skip, fetch) in [(0usize, Some(2usize)), (1, None), (2, Some(0)), (0, None)] {
-        push(format!("GlobalLimitExec skip={skip} fetch={fetch:?}"), Ok(Arc::new(GlobalLimitExec::new(left1(), skip, fetch))), true, false);
+        push(format!("GlobalLimitExec skip={skip} fetch={fetch:?}"), Ok(Arc::new(GlobalLimitExec::new(right(), skip, fetch))), true, false);
     }
-    push("LocalLimitExec 1".into(), Ok(Arc::new(LocalLimitExec::new(left(), 1))), true, false);
+    push("LocalLimitExec 1".into(), Ok(Arc::new(LocalLimitExec::new(right(), 1))), true, false);
     let pred = binary(c("a", &ls), Operator::Gt, lit(1i64), &ls).unwrap();
     push("FilterExec".into(), FilterExec::try_new(pred.clone(), left()).map(|x| Arc::new(x) as Arc<dyn ExecutionPlan>), true, false);
-    push("FilterExec with projection + selectivity".into(), FilterExec::try_new(pred.clone(), left()).and_then(|x| x.with_default_selectivity(37)).and_then(|x| x.with_projection(Some(vec![2, 0]))).map(|x| Arc::new(x) as Arc<dyn ExecutionPlan>), true, false);
+    push("FilterExec with selectivity".into(), FilterExec::try_new(pred.clone(), left()).and_then(|x| x.with_default_selectivity(37)).map(|x| Arc::new(x) as Arc<dyn ExecutionPlan>), true, false);
     push("ProjectionExec".into(), ProjectionExec::try_new(vec![(binary(c("a", &ls), Operator::Plus, c("b", &ls), &ls).unwrap(), "a+b".to_string()), (c("s", &ls), "S".to_string())], left()).map(|x| Arc::new(x) as Arc<dyn ExecutionPlan>), true, false);
     for p in [Partitioning::RoundRobinBatch(3), Partitioning::Hash(vec![c("a", &ls), c("s", &ls)], 4), Partitioning::UnknownPartitioning(2)] {
         let name = format!("RepartitionExec {p:?}");
@@ -420,8 +429,8 @@ async fn run_op(ctx: &SessionContext, id: usize, case: &Case) {
     let obs = observe(plan, &out);
     let mut t = out.text.clone(); if t.len() > 1500 { t.truncate(1500); t.push_str("..."); }
     let (hj, so) = (observe_hj(plan, &out), observe_sort(plan, &out));
-    println!("{{\"k\":\"op\",\"id\":{id},\"name\":{},\"key\":{},\"hj\":{hj},\"sort\":{so},\"bytes\":{},\"rows\":{},\"skipped\":{},\"why\":{},\"plan\":{},\"obs\":{},\"ok\":{}}}",
-        json_str(name), json_str(key), out.bytes, out.rows, out.skipped.as_ref().map(|s| json_str(&s[..s.len().min(400)])).unwrap_or("null".into()),
+    println!("{{\"k\":\"op\",\"id\":{id},\"name\":{},\"key\":{},\"hj\":{hj},\"sort\":{so},\"diff\":{},\"bytes\":{},\"rows\":{},\"skipped\":{},\"why\":{},\"plan\":{},\"obs\":{},\"ok\":{}}}",
+        json_str(name), json_str(key), diff_json(&out.diff), out.bytes, out.rows, out.skipped.as_ref().map(|s| json_str(&s[..s.len().min(400)])).unwrap_or("null".into()),
         out.why.as_ref().map(|s| json_str(&s[..s.len().min(1500)])).unwrap_or("null".into()), json_str(&t), obs_json(&obs), out.ok);
 }
 
@@ -485,9 +494,9 @@ async fn mk_ctx(conf: &Conf, names: &[String], tabs: &[Tab], dir: &str, tag: &st
 fn corpus() -> Vec<&'static str> {
     // over a(c0 BIGINT, c1 BIGINT, c2 VARCHAR, c3 BOOLEAN) and b(c0 BIGINT, c1 BIGINT, c2 VARCHAR)
     vec![
-        "SELECT c0, sum(c1) OVER (PARTITION BY c3 ORDER BY c0 ROWS BETWEEN 1 PRECEDING AND 1 FOLLOWING) FROM a",
+        "SELECT c0, sum(c1) OVER (PARTITION BY c3 ORDER BY c0, c1 ROWS BETWEEN 1 PRECEDING AND 1 FOLLOWING) FROM a",
         "SELECT c0, count(*) OVER (ORDER BY c0 RANGE BETWEEN 2 PRECEDING AND CURRENT ROW), row_number() OVER (ORDER BY c0 DESC NULLS LAST, c1) FROM a",
-        "SELECT c0, min(c1) OVER (ORDER BY c0 GROUPS BETWEEN UNBOUNDED PRECEDING AND 1 FOLLOWING), lag(c1, 1) IGNORE NULLS OVER (ORDER BY c0) FROM a",
+        "SELECT c0, min(c1) OVER (ORDER BY c0 GROUPS BETWEEN UNBOUNDED PRECEDING AND 1 FOLLOWING), lag(c1, 1) IGNORE NULLS OVER (ORDER BY c0, c1) FROM a",
         "SELECT first_value(c1) OVER (PARTITION BY c2 ORDER BY c0), last_value(c1) OVER (PARTITION BY c2 ORDER BY c0 ROWS BETWEEN UNBOUNDED PRECEDING AND UNBOUNDED FOLLOWING) FROM a",
         "SELECT unnest(make_array(c0, c1, 7)) AS u, c2 FROM a",
         "WITH RECURSIVE r AS (SELECT 1 AS n UNION ALL SELECT n + 1 FROM r WHERE n < 5) SELECT * FROM r",
@@ -514,6 +523,8 @@ fn corpus() -> Vec<&'static str> {
         "SELECT c2, max(c0) FROM a GROUP BY c2 ORDER BY max(c0) DESC LIMIT 2",
         "SELECT c0 FROM a UNION SELECT c0 FROM b",
         "SELECT c0 FROM a UNION ALL SELECT c1 FROM b",
+        "SELECT c3 AS r0 FROM a UNION ALL SELECT column1 FROM (VALUES (TRUE), (FALSE))",
+        "SELECT (c0 <> CAST(NULL AS BIGINT)) AS r0, c1 IS NULL AS r1 FROM a UNION ALL SELECT v.c0 AS r0, v.c0 AS r1 FROM (VALUES (TRUE, 3), (TRUE, 2)) AS v(c0, c1)",
         "SELECT c0 FROM a INTERSECT SELECT c0 FROM b",
         "SELECT c0 FROM a EXCEPT SELECT c0 FROM b",
         "SELECT DISTINCT c2 FROM a",
@@ -524,10 +535,10 @@ fn corpus() -> Vec<&'static str> {
         "SELECT c0 FROM a LIMIT 0",
         "SELECT a.c0, b.c1 FROM a JOIN b ON a.c0 = b.c0 ORDER BY b.c1 DESC LIMIT 2",
         "SELECT CASE WHEN c0 > 1 THEN 'big' WHEN c0 IS NULL THEN NULL ELSE 'small' END, CAST(c0 AS INT), TRY_CAST(c2 AS DOUBLE), c0 BETWEEN 1 AND 2, c2 LIKE 'a%', c2 ILIKE '_b', -c0, NOT c3 FROM a",
-        "SELECT c0 IN (1, 2, NULL), c0 NOT IN (3), c3 IS TRUE, c3 IS NOT FALSE, c3 IS UNKNOWN, c2 || 'z', c0 & 3, c0 | 1, c0 # 2, c0 << 1, c0 >> 1, c0 % 2, c0 / 2 FROM a",
+        "SELECT c0 IN (1, 2, NULL), c0 NOT IN (3), c3 IS TRUE, c3 IS NOT FALSE, c3 IS UNKNOWN, c2 || 'z', c0 & 3, c0 | 1, c0 ^ 2, c0 << 1, c0 >> 1, c0 % 2, c0 / 2 FROM a",
         "SELECT abs(c0), coalesce(c2, 'none'), nullif(c0, 1), date_trunc('day', TIMESTAMP '2024-01-02 03:04:05'), INTERVAL '1' DAY, DATE '2020-02-29', 1.5e0, DECIMAL '1.25' FROM a",
         "SELECT * FROM (VALUES (1, 'a'), (2, NULL)) AS v(k, t)",
-        "SELECT array_agg(c0 ORDER BY c1 DESC), string_agg(c2, ',') FROM a",
+        "SELECT array_agg(c0 ORDER BY c1 DESC), string_agg(c2, ',' ORDER BY c0, c1) FROM a",
         "SELECT sum(c0) FILTER (WHERE c3), count(*) FILTER (WHERE c1 > 0) FROM a",
         "SELECT c2 ~ '^a', c2 !~* 'B' FROM a",
         "SELECT * FROM generate_series(1, 5)",
@@ -560,12 +571,12 @@ async fn sql_case(conf: Conf, names: Vec<String>, tabs: Vec<Tab>, dir: String, i
     let df = match ctx.sql(&sql).await { Ok(d) => d, Err(e) => { println!("{{{head},\"plan_err\":{},\"nodes\":[],\"ok\":true}}", json_str(&e.to_string()[..e.to_string().len().min(300)])); return; } };
     let exec = !(sql.starts_with("COPY") || sql.starts_with("INSERT") || sql.starts_with("EXPLAIN"));
     let plan = match df.create_physical_plan().await { Ok(p) => p, Err(e) => { println!("{{{head},\"plan_err\":{},\"nodes\":[],\"ok\":true}}", json_str(&e.to_string()[..e.to_string().len().min(300)])); return; } };
-    let ordered = format!("{}", displayable(plan.as_ref()).one_line()).starts_with("Sort");
+    let ordered = false;   // SQL results are compared as multisets (ties make the order of equal keys unspecified)
     let out = check(&ctx, &fresh, &plan, exec, ordered).await;
     let mut kinds: Vec<String> = out.text.lines().map(|l| kind_name(l.trim_start())).collect(); kinds.sort(); kinds.dedup();
     let mut t = out.text.clone(); if t.len() > 2500 { t.truncate(2500); t.push_str("..."); }
-    println!("{{{head},\"plan_err\":null,\"nodes\":[{}],\"bytes\":{},\"rows\":{},\"skipped\":{},\"why\":{},\"plan\":{},\"ok\":{}}}",
-        kinds.iter().map(|k| format!("\"{k}\"")).collect::<Vec<_>>().join(","), out.bytes, out.rows,
+    println!("{{{head},\"plan_err\":null,\"nodes\":[{}],\"diff\":{},\"bytes\":{},\"rows\":{},\"skipped\":{},\"why\":{},\"plan\":{},\"ok\":{}}}",
+        kinds.iter().map(|k| format!("\"{k}\"")).collect::<Vec<_>>().join(","), diff_json(&out.diff), out.bytes, out.rows,
         out.skipped.as_ref().map(|s| json_str(&s[..s.len().min(400)])).unwrap_or("null".into()),
         out.why.as_ref().map(|s| json_str(&s[..s.len().min(2500)])).unwrap_or("null".into()), if out.ok && out.skipped.is_none() { "null".to_string() } else { json_str(&t) }, out.ok);
 }
